@@ -1,5 +1,4 @@
 SPECIFICATION Spec
 CONSTRAINT Track
 POSTCONDITION Report
-POSTCONDITION ReportPremise
 CHECK_DEADLOCK FALSE
